@@ -293,8 +293,10 @@ fn get_imsaak(
     }
 
     let mut hours = get_hours_adj_ext(&params_adj, top_astro_day, weather);
+    let mut extreme = false;
     if let Ok(hour) = hours[&Fajr] {
         if hour.extreme {
+            extreme = true;
             params_adj = params.clone();
             *params_adj.minutes.get_mut(&Fajr).unwrap() -= if params.intervals[&Imsaak] == 0. {
                 Params::DEF_IMSAAK_ANGLE
@@ -306,7 +308,10 @@ fn get_imsaak(
         }
     }
 
-    hours[&Fajr].map(|x| to_prayer_time(&params_adj, Fajr, x))
+    hours[&Fajr].map(|mut x| {
+        x.extreme |= extreme;
+        to_prayer_time(&params_adj, Fajr, x)
+    })
 }
 
 fn to_prayer_time(params: &Params, prayer: Prayer, prayer_hour: PrayerHour) -> PrayerTime {
